@@ -342,7 +342,17 @@ class Gen:
         it = r.choice(flat)
         k = r.random()
         ids = [x["id"] for x in flat]
-        if k < 0.22:                                     # identifier
+        if k < 0.08:                                     # compound: identifier pushed forward AND a citation of itself / a later sibling
+            cited = [x for x in flat if x["prevs"]]
+            if cited:
+                it = r.choice(cited)
+                pos = list(it["id"])                     # identifiers are still positions unless damaged before
+                n = r.choice([1, 1, 2, 3])
+                it["id"] = pos[:-1] + [pos[-1] + n]
+                it["prevs"][r.randrange(len(it["prevs"]))] = pos[:-1] + [pos[-1] + r.randrange(n)]
+                if it["th"]["c"] == NONE_P or r.random() < 0.3:
+                    it["th"] = _sq([], self.prop(1))
+        elif k < 0.22:                                   # identifier
             m = r.random()
             if m < 0.4:
                 it["id"] = it["id"][:-1] + [it["id"][-1] + r.choice([1, 2, -1, 5])]
